@@ -27,10 +27,7 @@ Section Proofs.
 
   Lemma cs_row_spec dw dh sw sh sbuf ox oy xa w buf y :
     0 <= dw -> 0 <= dh -> 0 <= sw -> 0 <= sh ->
-    dw <= i32_max -> dh <= i32_max -> sw <= i32_max -> sh <= i32_max ->
-    dw * dh <= i32_max -> sw * sh <= i32_max ->
     zlen buf = dw * dh -> zlen sbuf = sw * sh ->
-    i32_min <= ox <= i32_max -> i32_min <= oy <= i32_max ->
     0 <= w -> 0 <= xa -> xa + w <= sw -> 0 <= y < sh ->
     0 <= xa + ox -> xa + ox + w <= dw -> 0 <= y + oy < dh ->
     exists buf', cs_row gr dw sw sbuf ox oy xa w buf y = Ok buf' /\ zlen buf' = zlen buf /\
@@ -39,18 +36,12 @@ Section Proofs.
                     then g (zn sbuf (y * sw + xa + (i - ((y + oy) * dw + (xa + ox))))) (zn buf i)
                     else zn buf i.
   Proof.
-    intros Hdw Hdh Hsw Hsh Hdwm Hdhm Hswm Hshm Hdmax Hsmax Hlb Hls Hox Hoy Hw Hxa Hxw Hy Hdx Hdxw Hdy.
+    intros Hdw Hdh Hsw Hsh Hlb Hls Hw Hxa Hxw Hy Hdx Hdxw Hdy.
     pose proof (row_bounds (y + oy) dh dw Hdy Hdw) as [Hr1 Hr2].
     pose proof (row_bounds y sh sw Hy Hsw) as [Hs1 Hs2].
     assert (Hdw1 : dw <= dw * dh) by nia.
     assert (Hsw1 : sw <= sw * sh) by nia.
-    unfold cs_row, i32_max, i32_min in *.
-    rewrite (chk32_ok (xa + ox)) by (unfold i32_max, i32_min; lia). cbn [bind].
-    rewrite (chk32_ok (y + oy)) by (unfold i32_max, i32_min; lia). cbn [bind].
-    rewrite (chk32_ok ((y + oy) * dw)) by (unfold i32_max, i32_min; lia). cbn [bind].
-    rewrite (chk32_ok (xa + ox + (y + oy) * dw)) by (unfold i32_max, i32_min; lia). cbn [bind].
-    rewrite (chk32_ok (y * sw)) by (unfold i32_max, i32_min; lia). cbn [bind].
-    rewrite (chk32_ok (xa + y * sw)) by (unfold i32_max, i32_min; lia). cbn [bind].
+    unfold cs_row. cbv zeta.
     destruct (slice_in_range sbuf (xa + y * sw) (xa + y * sw + w)) as [srow Hsrow]; [lia|lia|].
     destruct (slice_in_range buf (xa + ox + (y + oy) * dw) (xa + ox + (y + oy) * dw + w)) as [drow Hdrow]; [lia|lia|].
     rewrite Hsrow, Hdrow. cbn [bind]. rewrite (map2r_total gr g) by exact gr_total. cbn [bind].
@@ -88,10 +79,7 @@ Section Proofs.
 
   Lemma cs_rows_spec dw dh sw sh sbuf ox oy xa w ys : forall buf,
     0 <= dw -> 0 <= dh -> 0 <= sw -> 0 <= sh ->
-    dw <= i32_max -> dh <= i32_max -> sw <= i32_max -> sh <= i32_max ->
-    dw * dh <= i32_max -> sw * sh <= i32_max ->
     zlen buf = dw * dh -> zlen sbuf = sw * sh ->
-    i32_min <= ox <= i32_max -> i32_min <= oy <= i32_max ->
     0 <= w -> 0 <= xa -> xa + w <= sw -> 0 <= xa + ox -> xa + ox + w <= dw ->
     NoDup ys -> (forall y, In y ys -> 0 <= y < sh /\ 0 <= y + oy < dh) ->
     exists buf', cs_rows gr dw sw sbuf ox oy xa w ys buf = Ok buf' /\ zlen buf' = zlen buf /\
@@ -100,7 +88,7 @@ Section Proofs.
            zn buf' (Y * dw + X) = g (zn sbuf ((Y - oy) * sw + (X - ox))) (zn buf (Y * dw + X))) /\
         (~ (In (Y - oy) ys /\ xa + ox <= X < xa + ox + w) -> zn buf' (Y * dw + X) = zn buf (Y * dw + X)).
   Proof.
-    induction ys as [|y t IH]; intros buf Hdw Hdh Hsw Hsh Hdwm Hdhm Hswm Hshm Hdmax Hsmax Hlb Hls Hox Hoy Hw Hxa Hxw Hdx Hdxw Hnd Hys.
+    induction ys as [|y t IH]; intros buf Hdw Hdh Hsw Hsh Hlb Hls Hw Hxa Hxw Hdx Hdxw Hnd Hys.
     - cbn [cs_rows]. eexists; split; [reflexivity|]. split; [reflexivity|].
       intros X Y HX HY. split; [intros [[] _]|reflexivity].
     - cbn [cs_rows].
@@ -134,17 +122,13 @@ Section Proofs.
         * intros Hn. rewrite P2b; [exact Hb|]. intros [Ht Hr]. apply Hn. split; [right; exact Ht|exact Hr].
   Qed.
 
-  Definition dom_ok (dw dh sw sh : Z) (sr : rect) (dx dy : Z) : Prop :=
-    0 <= dw <= i32_max /\ 0 <= dh <= i32_max /\ 0 <= sw <= i32_max /\ 0 <= sh <= i32_max /\
-    dw * dh <= i32_max /\ sw * sh <= i32_max /\
-    (let B := 536870912 in
-     - B <= x0 sr <= B /\ - B <= y0 sr <= B /\ - B <= x1 sr <= B /\ - B <= y1 sr <= B /\
-     - B <= dx <= B /\ - B <= dy <= B).
+  (* the only requirement: the sizes are non-negative and the buffers have them.  Rectangle, offset and sizes are
+     otherwise arbitrary integers (the code clips in i64, where nothing derived from i32 values can overflow). *)
+  Definition dom_ok (dw dh sw sh : Z) (sr : rect) (dx dy : Z) : Prop := 0 <= dw /\ 0 <= dh /\ 0 <= sw /\ 0 <= sh.
 
-  (* C15: for every size, rectangle and offset in the i32 working range the call returns
-     normally, the destination keeps its size, and a destination pixel (X,Y) changes iff its
-     source position src_rect.min + ((X,Y) - dst) lies in src_rect and in the source; it then
-     becomes g (source pixel) (old value). *)
+  (* C15: for every size, rectangle and offset the call returns normally, the destination keeps its size, and a
+     destination pixel (X,Y) changes iff its source position src_rect.min + ((X,Y) - dst) lies in src_rect and in the
+     source; it then becomes g (source pixel) (old value). *)
   Theorem composite_surface_block_transfer dw dh dbuf sw sh sbuf sr dx dy :
     dom_ok dw dh sw sh sr dx dy -> zlen dbuf = dw * dh -> zlen sbuf = sw * sh ->
     exists buf', composite_surface gr dw dh dbuf sw sh sbuf sr dx dy = Ok buf' /\ zlen buf' = zlen dbuf /\
@@ -154,27 +138,22 @@ Section Proofs.
           then let '(SX, SY) := cs_src_pos sr dx dy X Y in g (zn sbuf (SY * sw + SX)) (zn dbuf (Y * dw + X))
           else zn dbuf (Y * dw + X).
   Proof.
-    intros (Hdw & Hdh & Hsw & Hsh & Hdmax & Hsmax & Hb) Hlb Hls.
-    cbv zeta in Hb. destruct Hb as (Hx0 & Hy0 & Hx1 & Hy1 & Hdx & Hdy).
+    intros (Hdw & Hdh & Hsw & Hsh) Hlb Hls.
     destruct sr as [a0 b0 a1 b1]. cbn [x0 y0 x1 y1] in *.
-    unfold composite_surface, r_translate, r_inter. cbn [x0 y0 x1 y1].
-    unfold i32_max, i32_min in *.
-    repeat (rewrite chk32_ok by (unfold i32_max, i32_min; lia); cbn [bind]).
-    cbn [x0 y0 x1 y1].
+    unfold composite_surface. cbn [x0 y0 x1 y1]. cbv zeta.
     remember (dx - a0) as ox eqn:Eox. remember (dy - b0) as oy eqn:Eoy.
-    remember (Z.max 0 (Z.max a0 0 + ox) + - ox) as X0 eqn:EX0.
-    remember (Z.max 0 (Z.max b0 0 + oy) + - oy) as Y0 eqn:EY0.
-    remember (Z.min dw (Z.min a1 sw + ox) + - ox) as X1 eqn:EX1.
-    remember (Z.min dh (Z.min b1 sh + oy) + - oy) as Y1 eqn:EY1.
-    rewrite (chk32_ok X0) by (unfold i32_max, i32_min; lia). cbn [bind].
-    rewrite (chk32_ok Y0) by (unfold i32_max, i32_min; lia). cbn [bind].
-    rewrite (chk32_ok X1) by (unfold i32_max, i32_min; lia). cbn [bind].
-    rewrite (chk32_ok Y1) by (unfold i32_max, i32_min; lia). cbn [bind].
-    unfold r_empty. cbv beta iota delta [x0 y0 x1 y1].
-    destruct ((X0 <? X1) && (Y0 <? Y1)) eqn:Ene; cbn [negb].
-    - rewrite chk32_ok by (unfold i32_max, i32_min; lia). cbn [bind].
-      destruct (cs_rows_spec dw dh sw sh sbuf ox oy X0 (X1 - X0) (zrange Y0 Y1) dbuf) as (buf' & E & L & P);
-        try (unfold i32_max, i32_min; lia).
+    remember (Z.max (Z.max a0 0) (- ox)) as X0 eqn:EX0.
+    remember (Z.max (Z.max b0 0) (- oy)) as Y0 eqn:EY0.
+    remember (Z.min (Z.min a1 sw) (dw - ox)) as X1 eqn:EX1.
+    remember (Z.min (Z.min b1 sh) (dh - oy)) as Y1 eqn:EY1.
+    destruct ((X1 <=? X0) || (Y1 <=? Y0)) eqn:Ene.
+    - exists dbuf. split; [reflexivity|]. split; [reflexivity|].
+      intros X Y HX HY.
+      unfold cs_written, cs_src_pos, r_in. cbn [x0 y0 x1 y1].
+      destruct ((a0 <=? X - dx + a0) && (X - dx + a0 <? a1) && (b0 <=? Y - dy + b0) && (Y - dy + b0 <? b1) &&
+                ((0 <=? X - dx + a0) && (X - dx + a0 <? sw) && (0 <=? Y - dy + b0) && (Y - dy + b0 <? sh))) eqn:Ew; [|reflexivity].
+      exfalso. lia.
+    - destruct (cs_rows_spec dw dh sw sh sbuf ox oy X0 (X1 - X0) (zrange Y0 Y1) dbuf) as (buf' & E & L & P); try lia.
       { apply zrange_from_NoDup. }
       { intros y Hy. apply zrange_In in Hy. lia. }
       exists buf'. split; [exact E|]. split; [exact L|].
@@ -186,12 +165,6 @@ Section Proofs.
         * f_equal. f_equal. f_equal; [f_equal|]; lia.
         * rewrite zrange_In. lia.
       + apply Pb. rewrite zrange_In. lia.
-    - exists dbuf. split; [reflexivity|]. split; [reflexivity|].
-      intros X Y HX HY.
-      unfold cs_written, cs_src_pos, r_in. cbn [x0 y0 x1 y1].
-      destruct ((a0 <=? X - dx + a0) && (X - dx + a0 <? a1) && (b0 <=? Y - dy + b0) && (Y - dy + b0 <? b1) &&
-                ((0 <=? X - dx + a0) && (X - dx + a0 <? sw) && (0 <=? Y - dy + b0) && (Y - dy + b0 <? sh))) eqn:Ew; [|reflexivity].
-      exfalso. lia.
   Qed.
 End Proofs.
 
